@@ -14,6 +14,7 @@ import (
 	"sync"
 	"sync/atomic"
 	"time"
+	"unsafe"
 )
 
 // Runtime is implemented by the simulator (verif/sim/simkit/sched).
@@ -33,6 +34,12 @@ type Runtime interface {
 	After(d time.Duration) <-chan time.Time
 	Tick(d time.Duration) <-chan time.Time
 	Now() time.Time
+	// MapAccess announces that the running task is about to read or write
+	// the Go map at p. With window set the access is a write and the
+	// runtime may hold the task at this point (an open "write window")
+	// while other tasks run; any other task that announces an access to the
+	// same map meanwhile is a data race on the map.
+	MapAccess(p unsafe.Pointer, write, window bool, site string)
 }
 
 var rt Runtime
@@ -231,6 +238,57 @@ func Assign[T any](p *T, rv reflect.Value) { *p = conv[T](rv) }
 // Conv converts a received value to the element type of ch (used for
 // `case v := <-ch`).
 func Conv[T any](ch <-chan T, rv reflect.Value) T { return conv[T](rv) }
+
+func mapPtr[M ~map[K]V, K comparable, V any](m M) unsafe.Pointer {
+	return *(*unsafe.Pointer)(unsafe.Pointer(&m))
+}
+
+// MapW is placed before a statement that stores into or deletes from the
+// shared map m (rule R8).
+func MapW[M ~map[K]V, K comparable, V any](m M, site string) {
+	if rt != nil && m != nil {
+		rt.MapAccess(mapPtr(m), true, true, site)
+	}
+}
+
+// MapWQ is MapW without a scheduling point (inside loops over process-global
+// tables, where the number of scheduling points must not depend on the size
+// of the table).
+func MapWQ[M ~map[K]V, K comparable, V any](m M, site string) {
+	if rt != nil && m != nil {
+		rt.MapAccess(mapPtr(m), true, false, site)
+	}
+}
+
+// MapR is placed before a statement that reads the shared map m.
+func MapR[M ~map[K]V, K comparable, V any](m M, site string) {
+	if rt != nil && m != nil {
+		rt.MapAccess(mapPtr(m), false, false, site)
+	}
+}
+
+// VarW is placed before an assignment to the shared slice variable *p
+// (x = append(x, ...), x = x[:n]); VarR before a range over it. They use the
+// same write-window rule as the map probes, on the address of the variable.
+func VarW[T any](p *T, site string) {
+	if rt != nil {
+		rt.MapAccess(unsafe.Pointer(p), true, true, site)
+	}
+}
+
+// VarWQ is VarW without a scheduling point.
+func VarWQ[T any](p *T, site string) {
+	if rt != nil {
+		rt.MapAccess(unsafe.Pointer(p), true, false, site)
+	}
+}
+
+// VarR is placed before a range over the shared slice variable *p.
+func VarR[T any](p *T, site string) {
+	if rt != nil {
+		rt.MapAccess(unsafe.Pointer(p), false, false, site)
+	}
+}
 
 // Sleep replaces time.Sleep.
 func Sleep(d time.Duration) {
